@@ -119,7 +119,7 @@ def fill(b, t, rnd, out):
     out += bytes(buf)
 
 
-def gen_project(rnd, n_tags=12, programs=1, junk=True, big_tags=None, iid_base=None, wide=None, twin=False):
+def gen_project(rnd, n_tags=12, programs=1, junk=True, big_tags=None, iid_base=None, wide=None, twin=False, huge=False):
     b = Builder(rnd)
     symbols, mem = [], {}
     # types
@@ -190,6 +190,10 @@ def gen_project(rnd, n_tags=12, programs=1, junk=True, big_tags=None, iid_base=N
             add(nm, rnd.choice([inner, flat, outer]), [rnd.randint(1, 4)])
         else:
             add(nm, rnd.choice(udts + strs), rnd.choice([[], [2]]))
+    if huge:
+        # a structure larger than 64 KiB: member offsets need all 32 bits
+        huget = b.udt("Huge", [("pad", atomic(0xC4), 17000), ("flag", atomic(0xC1), 0), ("tail", atomic(0xC4), 0), ("tl", atomic(0xC3), 3)])
+        add("HugeTag", huget, [])
     if widet is not None:
         add("WideTag", widet, [])
     if twint is not None:
@@ -211,6 +215,8 @@ def gen_project(rnd, n_tags=12, programs=1, junk=True, big_tags=None, iid_base=N
         add("Cxn:Standard:abc", atomic(0), [], kind="map", typeword=0x7E)
         add("__DEFVAL_00001234", atomic(0xC4), [], kind="system", typeword=0xC4)
         add("Hidden9", atomic(0xC4), [], sysflag=1)
+        add("__Local:9:I", inner, [], kind="system", typeword=0x8000 + inner["tid"])      # system symbols that look like module tags
+        add("__Rack:C", atomic(0xC4), [], kind="system", typeword=0xC4)
         add("Local:1:I", inner, [])                                                # module I/O tag (kept)
         add("Rack:O", flat, [])
     for p in progs:
